@@ -427,8 +427,7 @@ fn oracle_ok(ctx: &mut Ctx, idx: usize, kc: &KCase, b: &Built, r: &SearchAlgorit
         let mut fwd = c.clone();
         fwd.reverse = false;
         oracle_c03_inner(ctx, idx, &fwd, b, r);
-        // (Yen's spur states restart from the initial state whether or not a vertex was re-opened)
-        let stale = !kc.yen && reopened && effective_wf(c) != Some(0.0);
+        let stale = reopened && effective_wf(c) != Some(0.0);
         ctx.rekey_since(n0, &key(if stale { "stale-link-after-reopening" } else { "state-not-accumulated" }));
     }
     // 5. pairwise distinct edge sequences
@@ -619,7 +618,8 @@ pub fn corpus() -> Vec<KCase> {
     let mut c = kcase(b, "reverse-search-nopath-witness");
     c.bf_ok = false;
     v.push(c);
-    // a limit the forward search respects stops the reverse search: 0 -> 1 -> 2 and 3, 4, 5 -> 2, size limit 2
+    // a limit the forward search respects stops the reverse search: 0 -> 1 -> 2 and 3, 4, 5 -> 2, size limit 2:
+    // the query must fail with the explicit `terminated` error (C10, 7780888), not return the shortest route alone
     let mut b = base_case(vec![(0, 1, 1.0), (1, 2, 1.0), (3, 2, 1.0), (4, 2, 1.0), (5, 2, 1.0)], 6, 0, 2);
     b.term = Term::Size(2);
     v.push(kcase(b, "reverse-search-limit-witness"));
@@ -734,6 +734,25 @@ pub fn yen_corpus() -> Vec<KCase> {
     // the first alternative is dearer but has only two edges (0 -> 1 -> 3 direct): once it is the
     // previous route the loop stops progressing, k = 3
     v.push(ycase(base_case(vec![(0, 1, 1.0), (1, 2, 1.0), (2, 3, 1.0), (1, 3, 5.0)], 4, 0, 3), 3, "yen-later-short-route"));
+    // a spur search stopped by a limit fails the query with the explicit `terminated` error (C10): the first
+    // search needs 4 expansions, the spur search from 1 needs 6, iteration limit 5
+    let mut b = base_case(
+        vec![
+            (0, 1, 1.0), (1, 2, 1.0), (2, 3, 1.0), (3, 4, 1.0),
+            (1, 5, 10.0), (5, 6, 1.0), (6, 7, 1.0), (7, 8, 1.0), (8, 9, 1.0), (9, 4, 1.0),
+            (2, 10, 20.0), (10, 4, 2.0),
+        ],
+        11,
+        0,
+        4,
+    );
+    b.term = Term::Iters(5);
+    v.push(ycase(b, 2, "yen-spur-search-limited"));
+    // the C03 re-opening witness (A*, estimate inconsistent for the network) through Yen
+    let mut c = ycase(stale_link_witness(false), 2, "yen-stale-link");
+    c.bf_ok = false;
+    c.style = LenStyle::Generic;
+    v.push(c);
     // edge-oriented, A* underlying
     let mut c = ycase(two_by_three_grid(), 2, "yen-grid-edge-oriented");
     c.base.edge_oriented = true;
@@ -1117,18 +1136,15 @@ fn run_yen_child(ctx: &mut Ctx, idx: usize, kc: &KCase, stream: Stream) -> Vec<V
     });
     let mut ex = exec_ksp(kc, &b, &kc.sim);
     let diverged = exhausted.load(Ordering::Relaxed);
-    // every run but the last returned Ok (an error would have been propagated); so did the last one
-    // when the whole call returned Ok
+    // a run that reached its target ended by popping it, which the hook does not record.  Which runs did
+    // is not visible in the trace any more (a spur search without a path is skipped, not propagated), and
+    // need not be: the model reads a schedule only as far as the run goes, so the final pop is appended
+    // to every run (a run whose source is the target popped nothing and ignores its schedule)
     let s = inner_source(c);
     if let Some(t) = inner_target(c) {
-        let n = ex.scheds.len();
-        let ok = matches!(ex.outcome, Outcome::Ok(_));
         for (i, sc) in ex.scheds.iter_mut().enumerate() {
-            if i + 1 < n || ok {
-                // a run whose source is the target popped nothing and ignores its schedule
-                if !(i == 0 && s == t) {
-                    sc.push(t);
-                }
+            if !(i == 0 && s == t) {
+                sc.push(t);
             }
         }
     }
@@ -1179,6 +1195,9 @@ fn run_yen_child(ctx: &mut Ctx, idx: usize, kc: &KCase, stream: Stream) -> Vec<V
         Outcome::Ok(r) => {
             ctx.count("outcome_ok");
             ctx.count(&format!("routes_{}", r.routes.len().min(7)));
+            if kc.label == "yen-spur-search-limited" {
+                ctx.fail(idx, "yens/spur-limit-not-terminated", "the spur search from vertex 1 exceeds the iteration limit but the query returned Ok".into());
+            }
             if let Some(k) = k_eff {
                 oracle_ok(ctx, idx, kc, &b, r, k, reopened(&ex.scheds));
             }
@@ -1191,7 +1210,11 @@ fn run_yen_child(ctx: &mut Ctx, idx: usize, kc: &KCase, stream: Stream) -> Vec<V
             if k.starts_with("panic") && !k.contains("termination-frequency-zero") {
                 ctx.fail(idx, "yens/panic", k.clone());
             }
-            if let (Outcome::Ok(_), Some(_), true) = (&plain.outcome, k_eff, inner_target(c).is_some() && reaches_algorithm(c)) {
+            if kc.label == "yen-spur-search-limited" && k != "terminated iterations" {
+                ctx.fail(idx, "yens/spur-limit-not-terminated", format!("expected the explicit 'terminated iterations' error, got '{}'", k));
+            }
+            // (a limit hit by a spur search IS the explicit `terminated` error of the query, C10)
+            if let (Outcome::Ok(_), Some(_), true) = (&plain.outcome, k_eff, inner_target(c).is_some() && reaches_algorithm(c) && !k.starts_with("terminated")) {
                 if ex.runs >= 2 {
                     ctx.fail(
                         idx,
@@ -1455,8 +1478,9 @@ fn run_yen_batch_stream(ctx: &mut Ctx, stream: Stream, items: Vec<(usize, usize,
 // ---------------------------------------------------------------------------------------------
 // k-shortest-paths streams of the search properties C01 C03 C04 C10 (called from searchprops::run):
 // the same machinery, cases emitted as ordinary correspondence cases whose line starts with `ksp`,
-// and every returned route judged by THAT property's own oracle.  Yen's known defects must not raise
-// alarms there: only its first route is judged (C01 C03 C04), and only runs that return are taken.
+// and every returned route judged by THAT property's own oracle — single-via and, since the repairs of
+// vfix/C13, Yen alike (Yen still runs in the child process, so that a regression to non-termination is
+// caught; a run that does not return is skipped here and is a VIOLATION of C13).
 
 #[derive(Clone, Copy, PartialEq, Eq, Debug)]
 pub enum Stream {
@@ -1532,8 +1556,8 @@ fn prop_corpus(s: Stream) -> Vec<KCase> {
                 c.k_default = k;
                 v.push(c);
             }
-            // the same through Yen with k = 1 (first route only is judged)
-            let mut c = ycase(two_by_three_grid(), 1, "c01-grid-edge-oriented-yen");
+            // the same through Yen
+            let mut c = ycase(two_by_three_grid(), 3, "c01-grid-edge-oriented-yen");
             c.base.edge_oriented = true;
             c.base.source = 0;
             c.base.target = Some(13);
@@ -1577,7 +1601,7 @@ fn prop_corpus(s: Stream) -> Vec<KCase> {
             let edges = vec![
                 (0, 1, 1.0), (1, 2, 1.0), (2, 3, 1.0), (3, 4, 1.0),
                 (1, 5, 10.0), (5, 6, 1.0), (6, 7, 1.0), (7, 8, 1.0), (8, 9, 1.0), (9, 4, 1.0),
-                (2, 10, 10.0), (10, 4, 2.0),
+                (2, 10, 20.0), (10, 4, 2.0), // dearer than the long detour: the unlimited query prefers that one
             ];
             for lim in [4u64, 5, 6, 7, 30] {
                 let mut b = base_case(edges.clone(), 11, 0, 4);
@@ -1682,34 +1706,18 @@ pub fn prop_case_at(s: Stream, seed: u64, quick: bool, j: usize) -> KCase {
         _ => {}
     }
     let yen = rng.chance(1, if s == Stream::C10 { 3 } else { 6 });
-    let mut k_default = *rng.pick(&[1usize, 2, 2, 3, 3, 4, 5, 6]);
-    let sim = if yen {
-        // AcceptAll: the only divergences left are short routes, which get k = 1 below
-        if rng.chance(1, 2) { None } else { Some(Sim::AcceptAll) }
-    } else {
-        match rng.below(6) {
-            0 | 1 | 2 => None,
-            3 => Some(Sim::AcceptAll),
-            4 => Some(Sim::EdgeId(*rng.pick(&[0.5, 0.75, 0.9, 1.0]))),
-            _ => Some(Sim::DistW(rng.uniform(0.3, 0.98))),
-        }
+    let k_default = *rng.pick(&[1usize, 2, 2, 3, 3, 4, 5, 6]);
+    let sim = match rng.below(6) {
+        0 | 1 | 2 => None,
+        3 => Some(Sim::AcceptAll),
+        4 => Some(Sim::EdgeId(*rng.pick(&[0.5, 0.75, 0.9, 1.0]))),
+        _ => Some(Sim::DistW(rng.uniform(0.3, 0.98))),
     };
     let term = match rng.below(4) {
         0 | 1 => None,
         2 => Some(KTerm::Exact),
         _ => Some(KTerm::MaxIt(rng.below(8) as u64)),
     };
-    if yen {
-        // Yen only where it provably returns: k = 1 unless the shortest route has three edges or more
-        let long_enough = build(&base).ok().map_or(false, |b| {
-            let probe = KCase { base: base.clone(), yen, k_default, query_k: None, sim: sim.clone(), term: term.clone(), style, bf_ok: false, label: "" };
-            let (plain, _) = plain_run(&probe, &b);
-            matches!(plain_route_len(&probe, &plain), Some(l) if l >= 3)
-        });
-        if !long_enough {
-            k_default = 1;
-        }
-    }
     KCase { base, yen, k_default, query_k: None, sim, term, style, bf_ok: false, label: "" }
 }
 
@@ -1726,10 +1734,10 @@ fn apply_prop_oracle(ctx: &mut Ctx, idx: usize, s: Stream, kc: &KCase, b: &Built
             if r.routes.len() >= 2 {
                 ctx.nontrivial(&outcome_line(&ex.outcome));
             }
-            // what is judged: every single-via route, the first Yen route; the forward tree
+            // what is judged: every route (single-via and, since its repairs, Yen alike); the forward tree
             let judged = SearchAlgorithmResult {
                 trees: r.trees.iter().take(1).cloned().collect(),
-                routes: if kc.yen { r.routes.iter().take(1).cloned().collect() } else { r.routes.clone() },
+                routes: r.routes.clone(),
                 iterations: r.iterations,
             };
             match s {
@@ -1798,22 +1806,6 @@ fn oracle_c10_ksp(ctx: &mut Ctx, idx: usize, kc: &KCase, ex: &KExec, unlimited: 
                     let count_eq = !matches!(kc.sim, None | Some(Sim::AcceptAll)) || r.routes.len() == ru.routes.len();
                     if trees_eq && first_eq && count_eq {
                         ctx.count("ksp_limited_equals_unlimited_up_to_tie_order");
-                        return;
-                    }
-                }
-            }
-            // single-via after aa21347: a reverse search stopped by a limit no longer fails the query, the
-            // shortest route is returned alone (one tree); accepted when it IS the unlimited first route
-            if !kc.yen && r.trees.len() == 1 {
-                if let Outcome::Ok(ru) = unl {
-                    let same_first = match (r.routes.first(), ru.routes.first()) {
-                        (Some(a), Some(b2)) => route_out(a) == route_out(b2),
-                        (None, None) => true,
-                        (None, Some(_)) => effective_k(kc) == Some(0),
-                        _ => false,
-                    };
-                    if ru.trees.len() == 2 && r.routes.len() <= 1 && same_first {
-                        ctx.count("ksp_reverse_search_limited_shortest_route_alone");
                         return;
                     }
                 }
@@ -1974,6 +1966,24 @@ fn run_single_via(ctx: &mut Ctx, idx: usize, kc: &KCase) {
                     }
                 }
             }
+            // the shortest route alone (one tree) is the answer to a FAILED reverse search; it must not be
+            // the answer to a reverse search stopped by a limit
+            if r.trees.len() == 1 && !c.edge_oriented && inner_target(c).is_some() && inner_target(c) != Some(c.source) {
+                let mut rc = c.clone();
+                rc.reverse = true;
+                rc.source = c.target.unwrap();
+                rc.target = Some(c.source);
+                let rev = exec(&rc, &b);
+                if let Outcome::Err(rk) = &rev.outcome {
+                    ctx.count("reverse_search_failed_shortest_route_alone");
+                    if rk.starts_with("terminated") {
+                        ctx.fail(idx, "ksp/single-via-reverse-limit-shortened-answer", format!("the reverse search is stopped by a limit ('{}') but single-via returned the shortest route alone instead of that error", rk));
+                    }
+                }
+            }
+            if kc.label == "reverse-search-limit-witness" {
+                ctx.fail(idx, "ksp/single-via-reverse-limit-shortened-answer", "the reverse search exceeds the solution size limit but the query returned Ok".into());
+            }
             if matches!(plain.outcome, Outcome::Err(_)) && inner_target(c).is_some() && !r.routes.is_empty() {
                 if let Outcome::Err(pk) = &plain.outcome {
                     if pk == "nopath" {
@@ -1987,8 +1997,12 @@ fn run_single_via(ctx: &mut Ctx, idx: usize, kc: &KCase) {
             if k.starts_with("panic") && !k.contains("termination-frequency-zero") {
                 ctx.fail(idx, "ksp/panic", k.clone());
             }
-            // an answerable query must not become an error
-            if let (Outcome::Ok(_), Some(_)) = (&plain.outcome, k_eff) {
+            if kc.label == "reverse-search-limit-witness" && k != "terminated size" {
+                ctx.fail(idx, "ksp/single-via-reverse-limit-shortened-answer", format!("expected the explicit 'terminated size' error, got '{}'", k));
+            }
+            // an answerable query must not become an error — except that a limit hit by any sub-search
+            // is the explicit `terminated` error (C10, 7780888)
+            if let (Outcome::Ok(_), Some(_), false) = (&plain.outcome, k_eff, k.starts_with("terminated")) {
                 if inner_target(c).is_some() {
                     let stage = if ex.runs >= 2 && ex.pops.is_empty() { "reverse-search" } else if !ex.pops.is_empty() { "alternative" } else { "first-search" };
                     ctx.fail(
@@ -2018,25 +2032,10 @@ pub fn run(ctx: &mut Ctx) -> &'static str {
     let corpus = corpus();
     let total = corpus.len() + n;
     let mut yen_items: Vec<(usize, KCase)> = vec![];
-    // children that are predicted to spin until killed cost two seconds each: run only some of them
-    let mut spin_allowance = ctx.n(10, 60);
     for k in 0..total {
         let Some(idx) = ctx.begin() else { continue };
         let kc = case_at(ctx.seed, ctx.quick(), k, &corpus);
         if kc.yen {
-            if kc.label.is_empty() && ctx.only.is_none() {
-                if let Ok(b) = build(&kc.base) {
-                    let (plain, _) = plain_run(&kc, &b);
-                    let short = matches!(plain_route_len(&kc, &plain), Some(l) if l <= 2);
-                    if short && effective_k(&kc).map_or(false, |k| k >= 2) && reaches_algorithm(&kc.base) && inner_target(&kc.base).is_some() {
-                        if spin_allowance == 0 {
-                            ctx.count("yen_short_route_case_not_run");
-                            continue;
-                        }
-                        spin_allowance -= 1;
-                    }
-                }
-            }
             yen_items.push((idx, kc));
         } else {
             run_single_via(ctx, idx, &kc);
